@@ -361,10 +361,24 @@ def instrument(buf):
     buf.allocate, buf.free = allocate, free
 
 
+def touch(w):
+    """every slot is read through its long-lived holder handle after every event of a history"""
+    for hi in range(len(w.holders)):
+        for sp in w.slots:
+            try:
+                x = w.slot_read(hi, sp)
+                if x is not None:
+                    x._offset
+            except Exception:
+                pass
+
+
 def build(hname, hist, salt):
     w = World(hname, salt)
+    touch(w)
     for i, ev in enumerate(hist):
         apply(w, ev, i)
+        touch(w)
     return w
 
 
